@@ -10,7 +10,7 @@ EX = "exploration"
 # id: (level, engine, technique, text, note)
 CHECKS = {
  "C01": (EX, "seqx", "bounded-exhaustive enumeration of shapes x type pairs x input lengths on the real API against a reference model of the interleaved layout (depth-2 histories: write, read back), plus a fixed list of large/wide shapes",
-         "Every one of the 169 slice/buffer type pairs and every small shape (C<=4, P<=4 frames: windows, partly filled frames, nil/short/long inputs, every combination of per-channel lengths) is run through the real Write/Read/WriteStriped/ReadStriped and compared cell by cell with the model; what was written is read back with both readers. A sparse list of large shapes (roots of 9..1025 frames, buffers of 2^20+1000 .. 1.4 million frames; 8..70, 256, 300, 1024 channels) straddles size thresholds; a named element type over each built-in type takes part against every built-in type (338 more pairs); caller slices have spare capacity behind their length; long transfers are repeated under GOMAXPROCS 1, 2, 3 and 48. Exhaustive inside the stated bounds, which is what a universally quantified layout property needs and examples cannot give.",
+         "Every one of the 169 slice/buffer type pairs and every small shape (C<=4, P<=4 frames: windows, partly filled frames, nil/short/long inputs, every combination of per-channel lengths) is run through the real Write/Read/WriteStriped/ReadStriped and compared cell by cell with the model; what was written is read back with both readers. A sparse list of large shapes (roots of 9..1025 frames, buffers of 2^20+1000 .. 1.4 million frames; 8..70, 256, 300, 1024 channels) straddles size thresholds; a named element type over each built-in type takes part against every built-in type (338 more pairs); caller slices have spare capacity behind their length (and a striped call must leave their headers and the hidden elements alone); shape queries between the construction steps; the built window is compared with the model; long transfers are repeated under GOMAXPROCS 1, 2, 3 and 48. Exhaustive inside the stated bounds, which is what a universally quantified layout property needs and examples cannot give.",
          "small scope: C<=4, P<=4 (thorough 5); large shapes are a finite list; values are integers representable in both types; Slice/AppendSample used to build windows"),
  "C02": (EX, "seqx", "bounded-exhaustive enumeration of (start,end) pairs incl. integer-overflow points over nested slicings against Go's slice rule in unbounded integers; two-way cell-by-cell aliasing; long sequences of live windows",
          "All (start,end) pairs in and out of range, including every integer where channels*index wraps mod 2^64, on every small root and nested to depth 2 (thorough 3), judged by the slice rule in big integers and by two-way aliasing over the child's whole capacity; plus sparse ranges on roots of 17..1200 frames and 9..65 channels, 400 windows of one parent kept alive and re-inspected, small windows of a 1.2-million-sample parent, head/middle/tail windows of parents of more than 2^24 samples, and 2^15..2^18 channels.",
@@ -19,10 +19,10 @@ CHECKS = {
          "Every sequence of up to 2 (thorough 3) appends with sources {independent, self, second header, other windows of the same storage} on every small destination window; after every step all live views and all storages are compared with the model, then every view is stamped to prove sharing/independence. Large roots (8..300 frames) with pairs of appends, directed histories with several growing destinations and surviving views on storages up to 9000 (and 2^15..2^18) frames, and buffers of special values (both zeros, infinities, extremes, integer bounds) appended in place and growing, compared by bit pattern, for all 46 element types of the facade; empty destinations taking over sources of 3..140000 frames; long appends repeated under GOMAXPROCS 1, 2, 3 and 48.",
          "small scope: 13 types, C<=3, P<=3 (thorough 4); capacity after growth is an environment answer checked only against the stated constraint"),
  "C04": (MC, "seqx", "exhaustive exploration of the Len state machine of one buffer: every history of k AppendSample calls on every shape against the slices model, incl. thousands of calls on long buffers",
-         "Every window shape (C<=4, P<=4) and every number of calls from 0 to spare capacity + 40 (thorough + 600), comparing the buffer, a pre-existing alias and the whole parent storage with the model after every call; every channel count 5..70 on short buffers; 16/100/1500-frame storages; nearly full windows of buffers of more than 2^24 samples filled to the end and beyond; every special value appended over a cell holding every other one (bit patterns, 46 element types); windows that outlive their parent across forced garbage collections, then allocations of the same shape.",
+         "Every window shape (C<=4, P<=4) and every number of calls from 0 to spare capacity + 40 (thorough + 600), comparing the buffer, a pre-existing alias and the whole parent storage with the model after every call; every channel count 5..70 on short buffers; 16/100/1500-frame storages; nearly full windows of buffers of more than 2^24 samples filled to the end and beyond; every special value appended over a cell holding every other one (bit patterns, 46 element types); windows that outlive their parent across forced garbage collections, then allocations of the same shape; a second header over the same window (parent.Slice(0, Length())) whose appends must not move the parent.",
          "13 types in the small scope; 3-4 types for the long ones"),
  "C05": (EX, "seqx", "bounded-exhaustive enumeration of source/destination window pairs for all 169 instantiations with a differential oracle (same function on a 1x1 buffer, two different destination pre-fills), context passes and a reverse-order process",
-         "All 169 instantiations, every pair of small source/destination windows (shorter/equal/longer, partly filled frames; large and many-channel shapes sparsely) with a boundary value alphabet: result k must equal the single-sample result whatever the destination held, everything outside the common prefix untouched, return = min per-channel length. 'Depends only on sample k and the two formats' is additionally checked against neighbours, alignment, tail position, the instantiation used before (all 169^2 ordered pairs) the order of use in the process (second process in reverse order), and in buffers of 2^20+3, 2^22+7 and 2^24+5 samples ending in a partly filled frame; named element types over all 13 built-in types take part; sources built by other routes (filled through windows only, recycled by a pool, previously a conversion's destination), a NaN among the neighbours, source or destination 37 frames longer, and long conversions under GOMAXPROCS 1, 2, 3 and 48.",
+         "All 169 instantiations, every pair of small source/destination windows (shorter/equal/longer, partly filled frames; large and many-channel shapes sparsely) with a boundary value alphabet: result k must equal the single-sample result whatever the destination held, everything outside the common prefix untouched, return = min per-channel length. 'Depends only on sample k and the two formats' is additionally checked against neighbours, alignment, tail position, the instantiation used before (all 169^2 ordered pairs) the order of use in the process (second process in reverse order), and in buffers of 2^20+3, 2^22+7 and 2^24+5 samples ending in a partly filled frame; named element types over all 13 built-in types take part; sources built by other routes (filled through windows only, recycled by a pool, previously a conversion's destination), a NaN among the neighbours, buffers holding one value throughout, source or destination 37 frames longer, destinations already holding +0 / -0, and long conversions under GOMAXPROCS 1, 2, 3 and 48.",
          "small scope: C<=3, P<=3 (thorough 4); value meaning delegated to C06-C09"),
  "C06": (EX, "sweepx", "exhaustive sweep of the sample-value domain through the real batch API (1-3 channel buffers, garbage-prefilled destination) with an exact integer oracle and streaming monotonicity; context passes; reverse-order process",
          "All 121 fixed-point instantiations (and, in the context passes, those with a named type over each built-in type on one side; buffers up to 2^24+5 samples; sources of unusual provenance; uneven lengths; GOMAXPROCS 1, 2, 3 and 48); every value of 8/16-bit sources, every value of 32-bit sources in the thorough tier (alphabet, lattice and cell end points in quick), alphabets + lattices for 64-bit sources; order preservation on the ascending sweep, reference levels exactly, equal inputs give equal outputs in every neighbourhood/alignment/history arrangement.",
@@ -40,7 +40,7 @@ CHECKS = {
          "Every history up to depth 5 (13 types) / 6 (3 types) [thorough 6 / 9] over {get with every pool answer, appendSample, growing append, stamp whole capacity, set first/at-length/last, reslice from frame 0, put, copy the allocator value (then Get/Put alternate between copy and original)} with up to 3 buffers outstanding on 7 small allocator shapes and 4 long ones; every Get is judged for shape, bit depth, zero over the whole capacity, distinct handle and disjoint storage. States are deduplicated by a canonical model key that keeps what pooled items held; 300-round linear histories without deduplication (with forced garbage collections) drive state the implementation might keep across calls; pools of up to 90000 samples.",
          "sync.Pool is over-approximated by the shim (any pooled item or New); histories of two element types are re-run on the real sync.Pool; use-after-put / double-put excluded by the property"),
  "C11": (MC, "schedx", "stateless schedule exploration (all interleavings with state-key pruning / preemption-bounded) of real goroutines under a race-detector-invisible baton; scheduling points at harness steps, pool, mutex, WaitGroup and sync/atomic operations and at the library's own go statements (which become threads of the explorer); pool answers as choice points; Go race detector as happens-before monitor on each explored schedule",
-         "G goroutines x M get/check/stamp/verify/put cycles on one PoolAllocator (shared by pointer and as copies, copied before or after a warm-up Put; 2-4-sample and 1024-5000-sample buffers, one of 2^21+5 samples; configurations in which holders keep only a window of their buffer and force a garbage collection while holding it; the library is told GOMAXPROCS=4 of 16 CPUs): all interleavings for (2,1),(2,2),(3,1) [thorough also (3,2),(4,1)], deviation bound 2 above; oracles: exclusive ownership (identity and stamps), freshness, and no data race (bounded pass in the -race build; a racy canary proves the monitor live).",
+         "G goroutines x M get/check/stamp/verify/put cycles on one PoolAllocator (shared by pointer and as copies, copied before or after a warm-up Put; 2-4-sample and 1024-5000-sample buffers, one of 2^21+5 samples; configurations in which holders keep only a window of their buffer and force a garbage collection while holding it, or put back a shorter window; float holders also write -0.0; the library is told GOMAXPROCS=4 of 16 CPUs): all interleavings for (2,1),(2,2),(3,1) [thorough also (3,2),(4,1)], deviation bound 2 above; oracles: exclusive ownership (identity and stamps), freshness, and no data race (bounded pass in the -race build; a racy canary proves the monitor live).",
          "interleaving at scheduling points (harness steps, every shim operation incl. atomics and WaitGroup, go statements, after Put); goroutines of the library are explorer threads while the rewrite of its go statements compiles and nothing blocks outside sync primitives, else they run outside the explorer (reported on stderr); finer-grained conflicts are the race monitor's job; the shim provides only Put(x) happens-before the Get returning x; GOMAXPROCS=1 by construction"),
  "C12": (MC, "seqx", "explicit-state breadth-first search over view histories (replay on fresh real buffers + one operation), states deduplicated by a canonical key of the slices reference model; long linear and directed large-storage histories",
          "Every history up to depth 5 (small shapes) / 3 (full alphabet: capacity <= 4 frames, <= 6 views, 3 channels) / 4 (40-frame buffers, sparse ranges) [thorough 6-7 / 4 / 5] over {alloc, slice, append incl. self, appendSample, write, set}; after every transition every live view and every storage is compared with the model. 400-step linear histories and directed histories on storages up to 9000 frames (growth with surviving views, recycled blocks, tail windows) run without deduplication.",
@@ -49,10 +49,10 @@ CHECKS = {
          "Every (C,L,K) of the stated grid (C up to 100, K up to 1025, thorough 20000) for the 13 built-in and 33 named element types; shape, zeroed capacity, bit depth, independence of every ordered pair of 10 shapes, 600 allocations in a row that are kept alive and re-inspected, and windows kept across forced garbage collections while their parents are dropped, followed by allocations of the same shape.",
          "grid, not every size"),
  "C14": (EX, "seqx", "bounded-exhaustive enumeration of parents x channels x indices with whole-storage diff; every per-channel length 0..70000 for the shape methods; views used after 1..700 appends to the parent",
-         "Every channel of every small parent (whole buffers, windows, partly filled last frames; up to 8 channels, plus 9/17/65 channels and 1100-frame windows): read, BufferIndex, write (whole storage diffed), read back; the view's Length/Capacity/Channels for every length up to 70000; a view taken once and used after each of 700 appends; windows of 2^24-3 .. 2^24+45 samples for every channel count 1..8 and (thorough) parents of 2^31+19 samples: shape and reads/writes/positions at the ends and around 2^24/C, 2^31/C.",
+         "Every channel of every small parent (whole buffers, windows, partly filled last frames; up to 8 channels, plus 9/17/65 channels and 1100-frame windows): read, BufferIndex (with the view's own and with foreign channel numbers), write (whole storage diffed), read back; special values through every view by bit pattern; the view's Length/Capacity/Channels for every length up to 70000; a view taken once and used after each of 700 appends; windows of 2^24-3 .. 2^24+45 samples for every channel count 1..8 and (thorough) parents of 2^31+19 samples: shape and reads/writes/positions at the ends and around 2^24/C, 2^31/C.",
          "13 types in the small scope, 3 for the long ones"),
  "C15": (EX, "seqx", "exhaustive enumeration of mismatching shapes for the 13 guarded entry points with before/after snapshots (pool observed through the sync shim)",
-         "All 169 conversion instantiations and striped I/O pairs, Append and Put for 13 types, every pair of different channel counts 1..4 (and (9,10), (64,65), (1,100); 1100-frame operands) / slice counts 0..5 / total capacities, the zero value of the buffer type as receiver of Append, foreign buffers of up to 128 MiB offered to a 16-sample pool, 70000-frame operands, caller slices with spare capacity; the call must panic and nothing (buffers, caller slices, pool free list) may differ from the snapshot.",
+         "All 169 conversion instantiations and striped I/O pairs, Append and Put for 13 types, every pair of different channel counts 1..4 (and (9,10), (64,65), (1,100); 1100-frame operands) / slice counts 0..5 (surplus slices also empty or nil) / total capacities, the zero value of the buffer type as receiver of Append, foreign buffers of up to 128 MiB offered to a 16-sample pool, 70000-frame operands, caller slices with spare capacity; the call must panic and nothing (buffers, caller slices, pool free list) may differ from the snapshot.",
          "pool contents observed through the overlay-injected sync.Pool shim"),
  "C16": (EX, "sweepx", "exhaustive over the 64 depths x boundary alphabets, lattices and every value in [-2^17,2^17] for depths<=16, math/big oracle; fresh processes for the order of first use and for every (function, depth) as the very first library call",
          "All 64 depths; bounds, clipping (identity in range, nearest bound outside, idempotent, monotone) and Scale for all 2080 depth pairs x 11 built-in integer types and a named type over each, where representable; several hundred fresh processes that first touch a few depths (also outside 1..64) and then check every depth, and 384 whose first library call is one given function at one depth.",
@@ -61,13 +61,13 @@ CHECKS = {
          "Standard rates, every integer rate 1..10^6, the 1/8 Hz lattice, and r +- 10^-k, r(1 +- 2^-k), r/1.001 ... for 12 whole rates; dense count windows, the 24 h edge, neighbourhoods of every rounding tie and of every argument where d*f or n*10^9 crosses 2^31..2^64; half-unit accuracy, monotonicity and the count->duration->count round trip.",
          "continuum domain: bounded windows only (exhaustive:false)"),
  "C18": (EX, "seqx", "exhaustive enumeration of operation x instantiation x branch-selecting shape with an allocation monitor (testing.AllocsPerRun) evaluated on every configuration",
-         "Every steady-state operation for 13 types / 169 pairs x C in {1,2,8} x lengths {0,1,64,1100[,4096]} x plain/window x slice-length class, pools up to 8x4096 and 1x20000 samples for every shape (through a pointer and through by-value copies) and of 160000 .. 2^24+5 samples (up to 128 MiB) in addition; same-type conversions also in place and between overlapping windows; 0 allocations required (Slice <= 1); a non-zero reading is re-measured 5x (minimum).",
+         "Every steady-state operation for 13 types / 169 pairs x C in {1,2,8} x lengths {0,1,64,1100[,4096]} x plain/window x slice-length class, pools up to 8x4096 and 1x20000 samples for every shape (through a pointer and through by-value copies) and of 160000 .. 2^24+5 samples (up to 128 MiB) in addition; same-type conversions also in place and between overlapping windows; the append that fills the capacity exactly; the very first AppendSample on a fresh full buffer counted without warm-up; 0 allocations required (Slice <= 1); a non-zero reading is re-measured 5x (minimum).",
          "plain build (no overlay): unmodified package and real sync.Pool; allocation sites are static so instantiation x branch enumeration covers them; sizes are a finite list"),
  "C19": (MC, "schedx", "stateless schedule exploration of readers and disjoint-window writers at operation granularity (all interleavings with state-key pruning), differential oracle against the sequential schedule, Go race detector as happens-before monitor",
-         "R readers running every read-only entry point and W writers confined to their own Slice over one shared buffer (6 frames; also a partly filled last frame, 9 channels, 600 frames): all interleavings for (R,W) in {(2,0),(3,0),(1,1),(2,2),(1,2)} [thorough + (4,0),(3,2),(0,3),(2,3)]; every thread's observations and the final contents must equal the sequential run; all instantiations with two concurrent conversions (6, 600 frames; 70000 samples for one instantiation per function with the library told GOMAXPROCS=2 of 16, its goroutines being explorer threads); bounded pass in the -race build reports conflicting accesses.",
+         "R readers running every read-only entry point and W writers confined to their own Slice over one shared buffer (6 frames; also a partly filled last frame, 9 channels, 600 frames): all interleavings for (R,W) in {(2,0),(3,0),(1,1),(2,2),(1,2)} [thorough + (4,0),(3,2),(0,3),(2,3)]; every thread's observations and the final contents must equal the sequential run; writers pass more data than their window holds and share one striped input table; shared sources hold negative values too; all instantiations with two concurrent conversions (one destination a frame shorter) (6, 600 frames; 70000 samples for one instantiation per function with the library told GOMAXPROCS=2 of 16, its goroutines being explorer threads); bounded pass in the -race build reports conflicting accesses.",
          "operation granularity is sufficient only together with the race monitor (conflict-free operations are both-movers); 3-4 element types"),
  "C20": (EX, "seqx", "exhaustive enumeration of degenerate allocators x every exported operation",
-         "Every allocator with a zero among Channels/Length/Capacity (values 0..3; plus 9/65 channels and 1100/5000-frame capacities) for 13 types through every exported function and method that has a valid argument there, incl. all 169 conversions on every degenerate shape, appends of empty buffers with capacities up to 2^25+1 samples, a zero-capacity pool whose first buffer is appended to and kept while a second is taken, zero-length windows of a non-empty buffer converted from, into and with that buffer, and ChannelLength with 0 channels.",
+         "Every allocator with a zero among Channels/Length/Capacity (values 0..3; plus 9/65 channels and 1100/5000-frame capacities) for 13 types through every exported function and method that has a valid argument there, incl. all 169 conversions on every degenerate shape, appends of empty buffers with capacities up to 2^25+1 samples, a zero-capacity pool whose first buffer is appended to and kept while a second is taken, zero-length windows of a non-empty buffer converted from, into and with that buffer, zero-channel allocators with Length > Capacity, and ChannelLength with 0 channels.",
          "Sample/SetSample have no valid index and are not called"),
 }
 
